@@ -138,8 +138,10 @@ def c06(ctx):
         scen = blines(r)
         if not scen:
             raise Infra("TLC emitted no behaviours")
+        # routes registered while packets are already being dispatched (one router per history)
+        scen += blines(vlib.tlc_mc(ctx, "MC_Router", "MC_Router_hist.cfg", consts=None if quick else {"MaxDisp": 3}, timeout=900))
         ctx.exhaustive = True
-        ctx.notes["bounds"] = ("all route tables of <= 2 routes over the matcher alphabet of MC_Router.tla (%s) x all packets" %
+        ctx.notes["bounds"] = ("all interleavings of registering 2 routes and dispatching %d packets on one router (reduced alphabet); " % (2 if quick else 3)) + ("all route tables of <= 2 routes over the matcher alphabet of MC_Router.tla (%s) x all packets" %
                                ("quick alphabet" if quick else "full alphabet"))
         out, nev, _ = vlib.run_driver(ctx, "c06", scen=scen, n=20000 if quick else 300000, timeout=1800)
         ctx.verdicts += vlib.tlc_trace(ctx, "TraceRouter", "Trace_Router.cfg", out, nev, timeout=1800)
